@@ -935,6 +935,30 @@ class SNum:
     def __bool__(self):
         return Ctx.cur.branch(self.e != 0)
 
+    # numpy's object-dtype loops for sqrt/cos/... call a method of that name on every element
+    def sqrt(self):
+        return sym_sqrt(self)
+
+    def _ufm(self, name):
+        from . import mnp
+
+        return getattr(mnp, name)(self)
+
+    def cos(self):
+        return self._ufm("cos")
+
+    def sin(self):
+        return self._ufm("sin")
+
+    def log(self):
+        return self._ufm("log")
+
+    def exp(self):
+        return self._ufm("exp")
+
+    def conjugate(self):
+        return self
+
     def __repr__(self):
         return "%s(%s)" % (type(self).__name__, self.e)
 
